@@ -23,8 +23,8 @@ CLAIMS = {
     'C04': ("Decided for all inputs: the visibility predicate (Snapshot::is_committed_before_snapshot, is_tuple_visible, TupleLayout::is_valid_for_snapshot) equals the snapshot-isolation rule 'creator is the reader or committed before the reader began, deleter is neither'; TransactionCoordinator::snapshot always records an upper bound and the active/aborted sets; a lemma connects the predicate to a ghost history; repeatability (verdict is a function of snapshot and version header); TransactionCoordinator::commit never moves the snapshot horizon backwards; validate_write_set reports a conflict whenever a written tuple was committed at or after the writer's start, and otherwise stamps every written tuple with the commit timestamp it drew (first-committer-wins bookkeeping, sequential lock semantics). TupleReader::parse_for_snapshot, on the byte-level delta chain of any well-formed stored tuple: a row deleted for the reader (deleter committed before it, or the reader itself) decodes to nothing, a returned version's creator is visible to the reader and is the NEWEST such version, and nothing is returned only if no version is visible (Verus, loop invariants over the chain). Known finding: Tuple::add_version_with stamps new versions with the previous creator.",
             "Outside: that the executors call record_write (they do not today), schedules; the chain walk assumes the reader's own versions are on top (no write over another transaction's uncommitted version).",
             "Verus postconditions on verbatim-extracted functions", "4 C04, Appendix A.1"),
-    'C05': ("Decided (Kani on the real evaluator, complete over the stated domains): AND/OR/NOT are Kleene three-valued logic over all 9/3 operand combinations; =,<>,<,<=,>,>= on INT agree with integer order for every pair; NULL operands propagate through every comparison and arithmetic operator; boolean context maps NULL to false; column bindings are bounds-checked; 32-bit add/sub are exact; arithmetic on non-numerics is an error; the ORDER BY comparator is antisymmetric, transitive and follows integer order / direction for every INT/NULL key. The Pratt parser's binding-power table puts OR < AND < comparison/LIKE/IN/BETWEEN/IS < additive/|| < multiplicative, all left-associative, NOT only before IN/BETWEEN/LIKE (Verus on infix_binding_power); the operand of unary minus stops before every additive, comparison and boolean operator and the operand of NOT before AND/OR but after comparisons (Verus on the two arms of parse_prefix); IS [NOT] NULL, [NOT] BETWEEN, [NOT] IN (list) and [NOT] LIKE return exactly the three-valued verdict (NULL operand => NULL, otherwise negation flips it) for every operand value (Verus on the arms of evaluate and on string_like); the aggregate accumulators implement the SQL step function (NULL inputs change nothing, COUNT counts non-NULL inputs, SUM/AVG add, MIN/MAX keep the extreme, empty input gives NULL / 0) and finalize accordingly; LIMIT/OFFSET returns exactly rows offset..offset+limit of its input in order, the filter returns exactly the rows whose predicate is TRUE, DISTINCT exactly the first occurrence of every row (Verus, operators against an abstract input stream); join building blocks: key matching is SQL equality (NULL never matches), the merge join's key comparison steps over a NULL key on its own side, the three row constructors produce left++right / left++NULLs / NULLs++right with the given widths; every row a nested-loop join emits has the output schema's width, also with an empty input; the planner orients every equi-join key pair as (left column, right column) or returns none; ABS/CEIL/FLOOR/ROUND/SQRT/COALESCE/NULLIF check their arity before indexing and compute the stated value; subquery expressions are errors, not panics.",
-            "Outside: the Pratt driver loop (parse_expr_bp / parse_infix) and the remaining prefix arms, the recursion of evaluate() over sub-expressions (each arm is checked against an abstract value of its operands), the state machines of HashJoin::next and MergeJoin::next (which rows they pair across calls), HashAggregate's grouping loop, string functions, grouping, sort, DISTINCT, LIMIT, DML row addressing; induction over expression depth is stated, not machine-checked.",
+    'C05': ("Decided (Kani on the real evaluator, complete over the stated domains): AND/OR/NOT are Kleene three-valued logic over all 9/3 operand combinations; =,<>,<,<=,>,>= on INT agree with integer order for every pair; NULL operands propagate through every comparison and arithmetic operator; boolean context maps NULL to false; column bindings are bounds-checked; 32-bit add/sub are exact; arithmetic on non-numerics is an error; the ORDER BY comparator is antisymmetric, transitive and follows integer order / direction for every INT/NULL key. The Pratt parser's binding-power table puts OR < AND < comparison/LIKE/IN/BETWEEN/IS < additive/|| < multiplicative, all left-associative, NOT only before IN/BETWEEN/LIKE (Verus on infix_binding_power); the operand of unary minus stops before every additive, comparison and boolean operator and the operand of NOT before AND/OR but after comparisons (Verus on the two arms of parse_prefix); IS [NOT] NULL, [NOT] BETWEEN, [NOT] IN (list) and [NOT] LIKE return exactly the three-valued verdict (NULL operand => NULL, otherwise negation flips it) for every operand value (Verus on the arms of evaluate and on string_like); the aggregate accumulators implement the SQL step function (NULL inputs change nothing, COUNT counts non-NULL inputs, SUM/AVG add, MIN/MAX keep the extreme, empty input gives NULL / 0) and finalize accordingly; LIMIT/OFFSET returns exactly rows offset..offset+limit of its input in order, the filter returns exactly the rows whose predicate is TRUE, DISTINCT exactly the first occurrence of every row (Verus, operators against an abstract input stream); join building blocks: key matching is SQL equality (NULL never matches), the merge join's key comparison steps over a NULL key on its own side, the three row constructors produce left++right / left++NULLs / NULLs++right with the given widths; every row a nested-loop join or a merge join emits has the output schema's width, also with an empty input; a merge join remembers every right row it reads together with a matched flag, ends only after its left input and -- for RIGHT/FULL -- its whole right input are consumed and every remembered row has been looked at (partial correctness: termination of the two next() functions is not checked); SeqScan / IndexScan return exactly the next visible row (table row of the next visible, in-range index entry) satisfying the pushed-down / residual predicate, and a predicate that cannot be evaluated is returned as an error; the planner orients every equi-join key pair as (left column, right column) or returns none; ABS/CEIL/FLOOR/ROUND/SQRT/COALESCE/NULLIF check their arity before indexing and compute the stated value; subquery expressions are errors, not panics.",
+            "Outside: the Pratt driver loop (parse_expr_bp / parse_infix) and the remaining prefix arms, the recursion of evaluate() over sub-expressions (each arm is checked against an abstract value of its operands), HashJoin::next and WHICH rows MergeJoin::next pairs across calls (MergeJoin::buffer_matching_right_rows is taken at a frame contract), HashAggregate's grouping loop, string functions, grouping, sort, DISTINCT, LIMIT, DML row addressing; induction over expression depth is stated, not machine-checked.",
             "complete Kani harnesses (loop-free, full-domain) on the real crate + Verus contracts on extracted functions and single match arms", "4 C05"),
     'C07': ("Decided for all inputs (Verus): ConstraintValidator::validate_not_null_constraints rejects a value vector exactly when some NOT NULL column (within the vector) holds NULL and accepts every other vector (loop invariant over the schema's columns); DmlExecutor::insert and ::update log and write a row image only after the constraint validation of exactly the values that image is built from has succeeded (full row for INSERT, old values + assignments for UPDATE), on every path.",
             "Outside: UNIQUE / PRIMARY KEY / foreign-key probing (ConstraintValidator::search_index / search_table: index B-tree probes through the pager inside closures; a not-yet-committed duplicate is deliberately 'no conflict', so two open transactions inserting the same key are not decided here), index maintenance, ALTER / CREATE UNIQUE INDEX on existing data.",
@@ -32,7 +32,7 @@ CLAIMS = {
     'C08': ("Decided (Verus, on the closure body of Database::run_recovery checked as a function of the values it captures): the recovery job analyses the log first, runs the undo/redo pass, commits the recovery transaction, and only then drops the log -- and only through a checkpoint (Pager::flush: dirty pages and header written before the log is truncated, unit pagerio), never through a bare truncation; so a crash at any point of the job, or right after it, leaves either the log or the recovered pages on disk.",
             "Outside: that the redo/undo handlers are idempotent and rebuild the right contents (logical DML/DDL through every layer), crash points inside a checkpoint or inside VACUUM, torn page writes, checkpoints taken while other transactions are open (Pager::flush drops their log records too), structural soundness of the trees after a crash.",
             "Verus contract on a verbatim-extracted closure body (R11), ordering obligations as typestate preconditions of the checkpoint", "4 C08"),
-    'C09': ("Decided (Kani, full domain): page-zero header state that must survive close/reopen -- aborted bitmap set/test/clear exactness and frame, header construction (counters, config fields, aligned page size); reload of the bitmap returns exactly the recorded ids; a checkpoint writes the header and every dirty page and leaves an openable empty log (Verus). Pager::allocate_page / dealloc_page keep the free list recorded in page zero a well-formed chain (see C11) and every page they hand out or free is dirty or already written; every write latch marks its frame dirty before access (Verus); DmlExecutor::insert persists the incremented next-row-id of the table it inserted into.",
+    'C09': ("Decided (Kani, full domain): page-zero header state that must survive close/reopen -- aborted bitmap set/test/clear exactness and frame, header construction (counters, config fields, aligned page size); reload of the bitmap returns exactly the recorded ids; a checkpoint writes the header and every dirty page and leaves an openable empty log (Verus). Pager::allocate_page / dealloc_page keep the free list recorded in page zero a well-formed chain (see C11) and every page they hand out or free is dirty or already written; every write latch marks its frame dirty before access (Verus); DmlExecutor::insert persists the incremented next-row-id of the table it inserted into; Stats::from_blob reads back what the stored payload holds.",
             "Outside: catalog rows, overflow chains across reopen, Pager::sync_header I/O; ids >= 8192 are dropped by the bitmap (recorded known finding).",
             "complete Kani harnesses + an injected Kani function contract on the real crate + Verus contracts on extracted pager functions", "4 C09"),
     'C10': ("Decided for all inputs (Verus): Btree::binary_search_page finds a key iff it is present on a sorted page and terminates; Btree::find_child_on_page routes to the child of the first separator greater than the key, else the right child; every cell index stays in bounds. Btree::insert/upsert/update/search_tuple position on the key area of the tuple they are given; CellComparator::compare_keys is the lexicographic order of the key columns at their own byte positions.",
@@ -44,7 +44,7 @@ CLAIMS = {
     'C12': ("Decided for all inputs (Verus): the page cache never loses a frame -- insert/evict/remove/clear keep every cached frame unless it is handed back to the caller, evict only free frames and always finds one if any exists, out-of-memory only when every frame is pinned, clear keeps the configured capacity; Pager::cache_frame writes every dirty evictee back as a whole page at its own page id before it leaves the cache; every TryFrom<&MemFrame> for WriteLatch<_> marks the frame dirty (and keeps the page), read latches change nothing; allocate_page/dealloc_page cache only frames that are dirty or written; (Kani, full domain) DBConfig::new and the builder clamp page size to a power of two in [4096, 65536] for every input.",
             "Outside: equality of results across configurations end-to-end, worker pool.",
             "Verus contracts on extracted functions + complete Kani harnesses", "4 C12"),
-    'C16': ("Decided (Kani): panic-freedom obligations of leaf functions for every input value -- casts, VarInt decoding of arbitrary bytes, evaluator column binding, wire decoders on arbitrary short byte strings, DBConfig::new; (Verus) every slice/index expression of the Rows decoder, of the delta-chain walkers and of the scalar functions is a discharged bounds obligation; subquery expressions the evaluator does not implement are ordinary errors.",
+    'C16': ("Decided (Kani): panic-freedom obligations of leaf functions for every input value -- casts, VarInt decoding of arbitrary bytes, evaluator column binding, wire decoders on arbitrary short byte strings, DBConfig::new; (Verus) every slice/index expression of the Rows decoder, of the delta-chain walkers and of the scalar functions is a discharged bounds obligation; subquery expressions and every other expression kind the evaluator does not implement (CASE, aggregates outside an aggregation, `*`) are ordinary errors; Stats::from_blob deserialises from the aligned copy (catalog lookups after ANALYZE do not panic).",
             "Outside: parser/binder/planner on arbitrary strings, worker loss/hang, post-error state; integer overflow and division by zero in DataType arithmetic and unary minus on MIN are recorded known findings.",
             "Kani built-in panic/overflow/index checks on complete harnesses", "4 C16"),
     'C17': ("Decided for all inputs and all operation sequences satisfying the log invariant (Verus, unbounded): append = sequence push (oversize rejected, state unchanged), block-zero-first placement never reorders, rotation conserves records, force makes disk_log == appended sequence, later forces never overwrite earlier blocks, truncate empties, the log's last LSN is global and push_to_log issues strictly increasing LSNs.",
